@@ -67,6 +67,7 @@ type threadState struct {
 	ack         chan struct{}
 	seq         int
 	raceOn      bool
+	poolSync    bool // sync.Pool Get/Put are scheduling points too
 }
 
 func newThreadState(maxPreempt int) *threadState {
@@ -188,6 +189,9 @@ func (t *threadState) afterResume(i *Interp, me *thread) {
 // syncPoint is called before a visible operation: the scheduler may pre-empt the current thread.
 func (t *threadState) syncPoint(i *Interp, what string) {
 	if len(t.threads) < 2 || t.inAtomic > 0 {
+		return
+	}
+	if !t.poolSync && (what == "pool.Get" || what == "pool.Put") {
 		return
 	}
 	cands := t.runnable()
